@@ -167,6 +167,14 @@ PROPS["C25"] = A("cases are seeded interleavings on one RPC connection of stream
 PROPS["C30"] = A("cases are seeded sequences of tags RPC edits (set/delete, overlapping keys, UTF-8, values sized to cross the 512-byte metadata limit) against a real agent with a tags file (real temp file); after every edit the file is reloaded through the agent's own loader; distinct = distinct step-list hash; non-trivial = at least one edit",
     "Seeded exploration; reference map (previous minus deleted plus set, set wins) equals the node's tags after accepted edits; a rejected edit leaves the tags unchanged; after EVERY edit, accepted or rejected, the tags the agent loader reads from the file equal the tags in effect ('restart' = loader reading only durable state). Exact replay.",
     quick=(2000, 45), thorough=(100000, 900), engine="E agent/IPC simulator", real=REAL_E, simulated=SIM_E)
+PROPS["C01"] = A("cases are seeded timed plans over 3-5 real Serf nodes with fully active real memberlist (gossip 50-200 ms, probe 0.3-1 s, push/pull 2-10 s, serf reconnect 1-5 s, drawn per run): joins, graceful leaves, crashes (also mid-leave), restarts, random bipartitions and isolations, packet loss up to 40 %, duplication up to 20 %, delays up to 1.5 s with reordering, user events as background traffic, faults biased to land right after membership operations; then the network is healed and quiet; distinct = distinct plan hash; non-trivial = the plan ran",
+    "Seeded exploration with STATISTICAL replay: real memberlist goroutines run free inside the synctest bubble, so which of several runnable goroutines goes first is not decided by the simulator (packet fates are a pure function of seed, link and per-link sequence number; the clock is fake). The oracle only asserts schedule-independent facts after faults stop: within a generous bound every running node lists every running node alive, members that left gracefully while connected as left, members that crashed as failed (either for ambiguous departures), at three consecutive one-second samples. A violation's replay file carries the plan; re-running it reproduces with high probability, not certainty.",
+    quick=(1200, 120), thorough=(60000, 2400), engine="C cluster simulator", replay="statistical",
+    real=["package serf (all of it)", "memberlist v0.5.4 fully active: SWIM probing, suspicion, gossip, push/pull, refutation", "go-msgpack"],
+    simulated=["network (simnet: per-packet loss/duplication/delay/partition from a keyed PRNG, stream dial refusal)", "clock (synctest)", "process crash/restart"],
+    assumptions=["goroutine choice inside un-instrumented memberlist and Go runtime select/map randomness are not controlled: replay is statistical", "no reaping during a run (timeouts 24 h)"])
+PROPS["C01"]["quick"].update({"batch": 4, "wd_s": 300})
+PROPS["C01"]["thorough"].update({"batch": 16, "wd_s": 300})
 PROPS["C14"] = D("cases are seeded histories against a real Serf node whose snapshot lives on simfs: user events and queries delivered by gossip and push/pull, real joins (with/without ignoreOld) against a real peer holding events, fake-time advances around the 500 ms flush interval, and 1-3 restarts (crash: only bytes already handed to the OS survive; or clean shutdown) followed by old and new messages; distinct = distinct step-list hash; non-trivial = messages injected after a restart",
     "Seeded exploration; E and Q are read by the real recovery from the image the restart starts from; any user event with time <= E or query with time <= Q on the application channel after the restart is a violation. Exact replay.",
     quick=(2500, 60), thorough=(100000, 1200),
